@@ -541,6 +541,14 @@ def c_kcenters(a, p):
 
 
 def g_dist(rng):
+    if rng.random() < 0.25:
+        # rounding-sensitive input: one or two rows, thousands of features, one huge coordinate followed by
+        # ones -- any change of the summation order (a reduction over features split across threads) changes
+        # the last bits of the result, so thread-count dependence becomes visible in a byte comparison
+        d = rng.choice([1500, 4097])
+        row = [2 ** 27] + [1] * (d - 1)
+        rows = [row] if rng.random() < 0.6 else [row, [1] * (d - 1) + [2 ** 27]]
+        return {"X": rows, "y": [0] * d, "dtype": "float64", "out": rng.choice(["none", "zeros"])}
     n = rng.choice([1, 4, 9, 33])
     d = rng.choice([1, 2, 5])
     return {"X": [[rng.randint(-4, 4) for _ in range(d)] for _ in range(n)], "y": [rng.randint(-4, 4) for _ in range(d)],
@@ -848,6 +856,11 @@ def generate(rng, tier):
     for name in ROUTINES:
         for _ in range(few if name in SLOW else per * WEIGHT.get(name, 1)):
             cases.append({"kind": "run", "routine": name, "params": ROUTINES[name][0](rng)})
+    # in-place variants on dense input (the combination in which a missing defensive copy shows)
+    for _ in range(4 if tier == "quick" else 30):
+        p = g_trim(rng)
+        p["ren"], p["fmt"] = False, "dense"
+        cases.append({"kind": "run", "routine": "trim_disconnected", "params": p})
     return cases
 
 
